@@ -115,8 +115,11 @@ func Int(m *big.Int) *rapid.Generator[*big.Int] {
 		default:
 			v = Uniform256().Draw(t, "r")
 		}
+		if v == nil { // ModInverse of a non-invertible value (moduli other than the two primes)
+			v = big.NewInt(1)
+		}
 		if v.Sign() < 0 {
-			v.Add(v, m)
+			v.Mod(v, m)
 		}
 		if v.Cmp(m) >= 0 {
 			v.Mod(v, m)
@@ -203,4 +206,19 @@ func Place(data []byte, l Layout) (slice, backing []byte) {
 		return nil, backing
 	}
 	return backing[l.Pre : l.Pre+len(data) : l.Pre+len(data)+l.Post], backing
+}
+
+// Chance returns true with probability about num/den. rapid's integer generators are biased towards
+// small values, so the draw is mixed first; the all-zero draw (what shrinking converges to) maps to false.
+func Chance(t *rapid.T, label string, num, den uint64) bool {
+	v := rapid.Uint64().Draw(t, label)
+	mixed := (v * 0x9E3779B97F4A7C15) >> 20
+	return mixed%den >= den-num
+}
+
+// Pick returns an index in [0, n) approximately uniformly (see Chance); the zero draw maps to index 0.
+func Pick(t *rapid.T, label string, n int) int {
+	v := rapid.Uint64().Draw(t, label)
+	mixed := (v * 0x9E3779B97F4A7C15) >> 20
+	return int(mixed % uint64(n))
 }
